@@ -165,6 +165,13 @@ def sameMarkerType (leader other : Str) : Bool :=
        && leader.getLast? == other.getLast?
 where isDigitPy (c : Char) : Bool := isDigit c
 
+/-- the test at the head of the loop of List.read:
+    `next_marker is not None and not cls.same_marker_type(leader, next_marker[2])` -/
+def otherMarkerType (leader : Option Str) (nextMarker : Option (Nat × Nat × Str × Str)) : Bool :=
+  match leader, nextMarker with
+  | some ld, some m => !sameMarkerType ld m.2.2.1
+  | _, _ => false
+
 /-- Quote.convert_leading_tabs; `err .unbound` for the empty string (loop variable read after an empty loop) -/
 def convertLeadingTabs (s0 : Str) : Res Str :=
   let s := replaceFirst ['>', '\t'] [' ', ' ', ' '] s0
@@ -706,12 +713,22 @@ def tryTypes (cfg : Cfg) : Nat → FW → St → Line → List BTok → Res (Opt
     | .blankLine =>
       if blankLine l.s then .ok (some (.blankLine ln l.origin, fw.next, st)) else tryTypes cfg gas fw st l ts
 
-/-- List.read: `while True: … ListItem.read(lines, next_marker) …`; items reversed in `acc` -/
+/-- List.read: `while True: … ListItem.read(lines, next_marker) …`; items reversed in `acc`.
+    A next marker of another type ends the list BEFORE its item is read (the item is left to the
+    dispatcher): reading it only to discard it would keep the link reference definitions in it. -/
 def readList (cfg : Cfg) : Nat → FW → St → Option Str → Option (Nat × Nat × Str × Str) → List Item →
     Res (List Item × FW × St)
   | 0, _, _, _, _, _ => .err .fuel
   | gas + 1, fw, st, leader, nextMarker, acc =>
-    let anchor := fw.pos
+    let stop (items : List Item) (fwEnd : FW) (stEnd : St) : Res (List Item × FW × St) :=
+      -- "Only consider the last list item loose if there's more than one element"
+      let items' := match items with
+        | .mk inner loose i p l n g :: rest => Item.mk inner (decide (inner.length > 1) && loose) i p l n g :: rest
+        | [] => []
+      .ok (items'.reverse, fwEnd, stEnd)
+    -- `if next_marker is not None and not cls.same_marker_type(leader, next_marker[2]): break`
+    if otherMarkerType leader nextMarker then stop acc fw st
+    else
     match itemLines cfg fw nextMarker with
     | .err e => .err e
     | .ok il =>
@@ -726,21 +743,14 @@ def readList (cfg : Cfg) : Nat → FW → St → Option Str → Option (Nat × N
       match res with
       | .err e => .err e
       | .ok (item, itemLeader, next, fw', st') =>
-        let stop (items : List Item) (fwEnd : FW) : Res (List Item × FW × St) :=
-          -- "Only consider the last list item loose if there's more than one element"
-          let items' := match items with
-            | .mk inner loose i p l n g :: rest => Item.mk inner (decide (inner.length > 1) && loose) i p l n g :: rest
-            | [] => []
-          .ok (items'.reverse, fwEnd, st')
         match leader with
         | some ld =>
-          if !sameMarkerType ld itemLeader then stop acc { fw' with pos := anchor }
-          else match next with
-            | none => stop (item :: acc) fw'
+          match next with
+            | none => stop (item :: acc) fw' st'
             | some _ => readList cfg gas fw' st' (some ld) next (item :: acc)
         | none =>
           match next with
-          | none => stop (item :: acc) fw'
+          | none => stop (item :: acc) fw' st'
           | some _ => readList cfg gas fw' st' (some itemLeader) next (item :: acc)
 end
 
